@@ -78,17 +78,8 @@ void h_drive(void) { PICK_K(k); cv_i32 a, b, c; PICK_STYLE(s0); PICK_STYLE(s1); 
   if (k == 2 && s0 == 2 && s1 == 1 && s2 == 0) __CPROVER_assert(0, "SENTINEL reachable: iterator, call, next");
   if (k == 0 && s0 == 1) __CPROVER_assert(0, "SENTINEL reachable: empty body asked by call"); }
 #endif
-#ifdef DRIVE_throw
-#define CALL2(K, S) drive_throw(K, a, b, c, e, S)
-#define CALL(S) WITH_K2(pos, CALL2, S)
-void h_drive(void) { PICK_K(pos); cv_i32 a, b, c, e; PICK_STYLE(s); WITH_K(s, CALL);
-  NO_EXC; CHECK_SEQ(pos, a, b, c);
-  __CPROVER_assert(*G_EXC_N >= 1 && *G_EXC_AT == pos && *G_EXC_VAL == e, "the body's exception surfaces exactly at its position, carrying the thrown value");
-  __CPROVER_assert(END == 0, "no value and no regular end indication after the exception");
-  __CPROVER_assert(*G_EXC_N + *G_NMV == 2, "asking again after the exception reports that exception or no_more_values_exception, never a value");
-  CHECK_GUARD(1); CHECK_HEAP(1);
-  if (s == 0) SENT_K(pos); else if (s == 1 && pos == 2) __CPROVER_assert(0, "SENTINEL reachable: call style, throw after 2"); else if (s == 2 && pos == 0) __CPROVER_assert(0, "SENTINEL reachable: iterator style, throw at once"); }
-#endif
+/* (the former DRIVE_throw - whose clauses about the time AFTER the exception had been copied from the code - is replaced by
+ * DRIVE_after_exception / DRIVE_throw_mixed at the end of this file) */
 #if defined(DRIVE_arg_next) || defined(DRIVE_arg_future)
 void h_drive(void) { PICK_K(k); cv_i32 a, b, c, x0, x1, x2, x3;
 #ifdef DRIVE_arg_next
@@ -152,4 +143,66 @@ void h_drive(void) { cv_i32 a, b, v; cv_i32 s = nondet_int(); __CPROVER_assume(s
   __CPROVER_assert(*G_PENDING_SEEN == 1, "the consumer coroutine stays suspended behind the generator until the awaited operation completes");
   __CPROVER_assert(gh_wait_calls == 0, "asynchronous access never blocks the thread");
   if (s == 0) __CPROVER_assert(0, "SENTINEL reachable: co_await next()"); else __CPROVER_assert(0, "SENTINEL reachable: co_await of the call future"); }
+#endif
+
+/* ===== added after the audit of group E (W1, W2) ================================================================================== */
+#define PICK_STYLE5(s) cv_i32 s = nondet_int(); __CPROVER_assume(0 <= (cv_s32)s && s <= 4)
+/* frames: the generator's plus one small consumer coroutine per co_await step (styles 3, 4) */
+#define CHECK_HEAP_CO do { \
+  __CPROVER_assert(gh_allocs == 1 + *G_CO_FRAMES && gh_frames_typed == 1 + *G_CO_FRAMES, "the only dynamic allocations are the coroutine frames (the generator's, one per co_await step of the consumer)"); \
+  __CPROVER_assert(gh_frees == gh_allocs, "every frame is freed exactly once"); } while (0)
+
+/* W1 - what the consumer must observe AFTER the body's exception, derived from the property statement (not from the code):
+ *   "exactly the sequence of values the body yields ... followed by a single end-of-sequence indication, whichever access style it uses
+ *    or mixes ... An exception escaping the body surfaces to the consumer at exactly that position".
+ * For a body that throws after pos values the observation is: the pos values, the exception (once, at position pos) - and with it the
+ * sequence is over, because the body can produce nothing more.  So from the moment the exception has surfaced the generator has to
+ * behave as one whose end has been reached: it says so (done() true, operator bool false) and asking again gives the end-of-sequence
+ * indication of the style used (next() / co_await next() -> false, a fresh iterator == end()), every time, with no exception and no
+ * value.  For the call styles the library's answer to asking a finished generator applies (a future without value or
+ * no_more_values_exception - neither a value nor the body's exception again).
+ * The unchanged library never marks a generator finished when its body ended by an exception: done() stays false, operator bool true,
+ * and next() throws no_more_values_exception instead of returning false (replay/c13_after_exception.cpp). */
+#ifdef DRIVE_after_exception
+cv_i32 in_pos, in_style;
+#define CALL2(K, S) drive_after_exception(K, a, b, c, e, S)
+#define CALL(S) WITH_K2(in_pos, CALL2, S)
+void h_drive(void) { in_pos = nondet_int(); __CPROVER_assume(0 <= (cv_s32)in_pos && in_pos <= 3);
+  in_style = nondet_int(); __CPROVER_assume(AE_STYLE_LO <= (cv_s32)in_style && in_style <= AE_STYLE_HI); cv_i32 a, b, c, e;
+  WITH_K(in_style, CALL);
+  NO_EXC; CHECK_SEQ(in_pos, a, b, c);
+  __CPROVER_assert(*G_EXC_N == 1 && *G_EXC_AT == in_pos && *G_EXC_VAL == e, "the body's exception surfaces exactly once, exactly at its position, carrying the thrown value (asking again never reports it a second time)");
+  __CPROVER_assert(END == 0, "no regular end indication in place of, or before, the exception");
+  __CPROVER_assert(*G_FIN_DONE == 1 && *G_FIN_BOOL == 0, "C13-FINDING-after-exception: once the body's exception has surfaced the sequence is over and the generator says so (done() true, operator bool false), as after a regular end");
+  __CPROVER_assert(*G_AFTER_VAL == 0, "never a value after the exception");
+  if (in_style == 1 || in_style == 4)
+    __CPROVER_assert(*G_AFTER_END + *G_NMV == 2, "a call on the finished generator produces nothing, each time: a future without value or no_more_values_exception");
+  else
+    __CPROVER_assert(*G_AFTER_END == 2 && *G_NMV == 0, "C13-FINDING-after-exception: asking again after the exception gives the end-of-sequence indication of the style (next() / co_await next() false, a fresh iterator == end()), every time - not an exception");
+  CHECK_GUARD(1); CHECK_HEAP_CO;
+  if (in_style == AE_STYLE_LO) SENT_K(in_pos); else if (in_style == AE_STYLE_HI && in_pos == 2) __CPROVER_assert(0, "SENTINEL reachable: last style of the unit, throw after 2 values"); }
+#endif
+/* W2 - the co_await styles mixed with the synchronous ones, step by step (each co_await step is a small consumer coroutine) */
+#ifdef DRIVE_mixed5
+void h_drive(void) { PICK_K(k); cv_i32 a, b, c; PICK_STYLE5(s0); PICK_STYLE5(s1); PICK_STYLE5(s2); PICK_STYLE5(s3);
+#define CALL(K) drive_mixed5(K, a, b, c, s0, s1, s2, s3)
+  WITH_K(k, CALL);
+  NO_EXC; CHECK_SEQ(k, a, b, c); CHECK_END1; CHECK_NO_BODY_EXC; CHECK_GUARD(1); CHECK_HEAP_CO;
+  if (k == 3 && s0 == 3 && s1 == 0 && s2 == 4 && s3 == 2) __CPROVER_assert(0, "SENTINEL reachable: co_await next(), next(), co_await call, iterator");
+  if (k == 2 && s0 == 1 && s1 == 4 && s2 == 3) __CPROVER_assert(0, "SENTINEL reachable: call, co_await call, co_await next() finds the end");
+  if (k == 0 && s0 == 4) __CPROVER_assert(0, "SENTINEL reachable: empty body asked by co_await of the call future"); }
+#endif
+/* W2 - a throwing body read with a different style at every step, co_await styles included: the exception under co_await */
+#ifdef DRIVE_throw_mixed
+void h_drive(void) { PICK_K(pos); cv_i32 a, b, c, e; PICK_STYLE5(s0); PICK_STYLE5(s1); PICK_STYLE5(s2); PICK_STYLE5(s3);
+#define CALL(K) drive_throw_mixed(K, a, b, c, e, s0, s1, s2, s3)
+  WITH_K(pos, CALL);
+  NO_EXC; CHECK_SEQ(pos, a, b, c);
+  __CPROVER_assert(*G_EXC_N == 1 && *G_EXC_AT == pos && *G_EXC_VAL == e, "the body's exception surfaces exactly once, exactly at its position, carrying the thrown value - whichever style meets it (co_await styles included)");
+  __CPROVER_assert(END == 0 && *G_NMV == 0, "nothing but the values and the body's exception is reported up to that position");
+  CHECK_GUARD(1); CHECK_HEAP_CO;
+  if (pos == 2 && s0 == 0 && s1 == 4 && s2 == 3) __CPROVER_assert(0, "SENTINEL reachable: next(), co_await call, the exception under co_await next()");
+  if (pos == 1 && s0 == 3 && s1 == 4) __CPROVER_assert(0, "SENTINEL reachable: co_await next(), the exception under co_await of the call future");
+  if (pos == 0 && s0 == 2) __CPROVER_assert(0, "SENTINEL reachable: throws at once, met by a fresh iterator");
+  if (pos == 3 && s3 == 1) __CPROVER_assert(0, "SENTINEL reachable: three values, the exception in the future of a call"); }
 #endif
